@@ -20,7 +20,7 @@ TRIGGER_CLASSES = ["open:lock", "replace:lock", "replace:lock", "close:marker", 
                    "spawn-link:so", "codegen:", "unlink:lock", "rename:tmp"]
 FAULT_KINDS = ["kill", "kill", "kill", "interrupt", "codegen-fail", "cc-fail", "cc-fail", "ld-fail",
                "marker-enospc", "lock-eacces", "kill-torn-link", "kill-torn-obj", "stall",
-               "torn-write-kill", "load-fail"]
+               "torn-write-kill", "load-fail", "bad-library"]
 PRE_KINDS_C15 = ["orphan-lock", "orphan-lock+torn-so", "stale-failed", "stale-failed+leftovers", "warm"]
 
 
@@ -224,6 +224,9 @@ def gen_scenario(seed, mode, thorough, golden):
             f.update(proc=rng.choice(procs)["name"])
         elif kind == "load-fail":
             f.update(proc="holder" if c < 0.7 else rng.choice(procs)["name"])
+        elif kind == "bad-library":
+            tp = rng.choice(procs)
+            f.update(proc=tp["name"], req_index=0)
         else:
             f.update(proc="holder")
             if kind == "marker-enospc":
@@ -292,6 +295,16 @@ def sweep_scenarios(golden):
                        {"name": 3, "arrive": 2.5, "requests": [{"req": name, "timeout": 3}]}],
              "late": [{"name": "late0", "req": name, "timeout": 2}],
              "faults": [{"kind": k1, "proc": 0}], "sweep": f"failure-with-waiters/{k1}"}
+        out.append(s)
+    # a request that fails at link time through its own input (a library that does not exist),
+    # followed by a request of the same process for the same and for another module
+    for second in (P.TINY[0], P.TINY[1]):
+        s = {"seed": 19, "mode": "C15", "pre": [], "stretch": [],
+             "procs": [{"name": 0, "arrive": 0.0, "requests": [{"req": name, "timeout": 2},
+                                                              {"req": second, "timeout": 2}]}],
+             "late": [{"name": "late0", "req": name, "timeout": 2}],
+             "faults": [{"kind": "bad-library", "proc": 0, "req_index": 0}],
+             "sweep": f"bad-library-then/{second}"}
         out.append(s)
     # a failing builder and newcomers that arrive right behind its release of the lock (and one
     # behind the first newcomer's own lock acquisition): whatever the failure handling still does
